@@ -221,6 +221,19 @@ theorem weight_decay_before_momentum (o : MomOpts α) (ha : o.after = false) (hw
   rw [momentumTx_update]
   simp only [specMomentumStage, ha, Bool.false_eq_true, if_false, specDecay, hw, if_true]
 
+/-- **weight_decay_order** — both sides in one statement: with `wd > 0` the chain built by `momentum.apply` adds `wd·x`
+to the output of momentum when `weight_decay_after_momentum`, and to its input otherwise. -/
+theorem weight_decay_order (o : MomOpts α) (hw : 0 < o.wd) (u tr x : List α) :
+    (momentumTx o).update u (momState o tr) x =
+      if o.after then
+        (List.zipWith (fun g p => g + o.wd * p) (specMomentum o u tr).1 x, momState o (specMomentum o u tr).2)
+      else
+        ((specMomentum o (List.zipWith (fun g p => g + o.wd * p) u x) tr).1,
+         momState o (specMomentum o (List.zipWith (fun g p => g + o.wd * p) u x) tr).2) := by
+  cases ha : o.after
+  · simpa using weight_decay_before_momentum o ha hw u tr x
+  · simpa using weight_decay_after_momentum o ha hw u tr x
+
 /-- in particular the new velocity does not depend on the parameters when the decay comes after momentum -/
 theorem velocity_ignores_weights_after (o : MomOpts α) (ha : o.after = true) (u tr x x' : List α) :
     ((momentumTx o).update u (momState o tr) x).2 = ((momentumTx o).update u (momState o tr) x').2 := by
